@@ -5569,7 +5569,8 @@ class CodegenCtx:
     def _escape_string(self, value: Union[bytes, str]):
         result = ""
         if type(value) is str:
-            bytes_value = value.encode('utf-8')
+            # strings hold one byte per character (\xHH escapes produce characters up to 0xff)
+            bytes_value = value.encode('latin-1')
         else:
             bytes_value = value
         for i in bytes_value:
@@ -5591,7 +5592,7 @@ class CodegenCtx:
         """
 
         if isinstance(value, str):
-            escaped_length = len(value.encode('utf-8'))
+            escaped_length = len(value.encode('latin-1'))
         else:
             escaped_length = len(value)
 
